@@ -210,4 +210,439 @@ theorem hasMultipleEdges_iff (g : Graph)
     have := (hr f hf).2.2
     split <;> split <;> omega
 
+/-! ### text level: the tokenizer -/
+
+theorem splitCh_of_not_mem {sep : Char} {w : List Char} (h : sep ∉ w) : splitCh sep w = [w] := by
+  induction w with
+  | nil => rfl
+  | cons c w ih =>
+    have hc : c ≠ sep := fun e => h (e ▸ List.mem_cons_self)
+    have hw : sep ∉ w := fun m => h (List.mem_cons_of_mem _ m)
+    simp only [splitCh, if_neg hc, ih hw]
+
+theorem splitCh_append_sep {sep : Char} {w : List Char} (h : sep ∉ w) (rest : List Char) :
+    splitCh sep (w ++ sep :: rest) = w :: splitCh sep rest := by
+  induction w with
+  | nil => simp [splitCh]
+  | cons c w ih =>
+    have hc : c ≠ sep := fun e => h (e ▸ List.mem_cons_self)
+    have hw : sep ∉ w := fun m => h (List.mem_cons_of_mem _ m)
+    simp only [List.cons_append, splitCh, if_neg hc, ih hw]
+
+theorem tokens_space (rest : List Char) : tokens (' ' :: rest) = tokens rest := by
+  simp [tokens, splitCh]
+
+theorem tokens_replicate (k : Nat) (rest : List Char) :
+    tokens (List.replicate k ' ' ++ rest) = tokens rest := by
+  induction k with
+  | zero => rfl
+  | succ k ih => rw [List.replicate_succ, List.cons_append, tokens_space, ih]
+
+theorem tokens_word {w : List Char} (h : ' ' ∉ w) (hne : w ≠ []) : tokens w = [w] := by
+  simp [tokens, splitCh_of_not_mem h, hne]
+
+/-- a word followed by a non-empty run of spaces -/
+theorem tokens_word_gap {w : List Char} (h : ' ' ∉ w) (hne : w ≠ []) (k : Nat) (rest : List Char) :
+    tokens (w ++ (List.replicate (k + 1) ' ' ++ rest)) = w :: tokens rest := by
+  rw [List.replicate_succ, List.cons_append]
+  have : tokens (w ++ ' ' :: (List.replicate k ' ' ++ rest)) = w :: tokens (List.replicate k ' ' ++ rest) := by
+    simp [tokens, splitCh_append_sep h, hne]
+  rw [this, tokens_replicate]
+
+/-! ### text level: numbers -/
+
+/-- decimal digits of a natural number, no leading zeros (`0` is `"0"`) -/
+def renderNat (n : Nat) : List Char := Nat.toDigits 10 n
+
+theorem isDigit_of_mem_renderNat {c : Char} {n : Nat} (h : c ∈ renderNat n) : c.isDigit = true :=
+  Nat.isDigit_of_mem_toDigits (by decide) (by decide) h
+
+theorem not_mem_renderNat {c : Char} (hc : c.isDigit = false) (n : Nat) : c ∉ renderNat n := by
+  intro h; rw [isDigit_of_mem_renderNat h] at hc; cases hc
+
+theorem renderNat_ne_nil (n : Nat) : renderNat n ≠ [] := Nat.toDigits_ne_nil
+
+theorem parseNat_renderNat (n : Nat) : parseNat (renderNat n) = some n := by
+  unfold parseNat
+  have h1 : (renderNat n).isEmpty = false := by
+    cases h : renderNat n with
+    | nil => exact absurd h (renderNat_ne_nil n)
+    | cons => rfl
+  have h2 : (renderNat n).all Char.isDigit = true :=
+    List.all_eq_true.2 fun c hc => isDigit_of_mem_renderNat hc
+  rw [h1, h2]
+  simp [renderNat]
+
+theorem parseInt_renderNat (n : Nat) : parseInt (renderNat n) = some (n : Int) := by
+  have hp := parseNat_renderNat n
+  have hm : '-' ∉ renderNat n := not_mem_renderNat (by decide) n
+  cases h : renderNat n with
+  | nil => exact absurd h (renderNat_ne_nil n)
+  | cons c cs =>
+    rw [h] at hp hm
+    have hc : c ≠ '-' := fun e => hm (e ▸ List.mem_cons_self)
+    unfold parseInt
+    split
+    · rename_i heq; cases heq; exact absurd rfl hc
+    · rw [hp]; rfl
+
+/-- exactly `k` fractional digits of `r < 10^k`, zero padded on the left -/
+def renderFrac (k r : Nat) : List Char :=
+  List.replicate (k - (renderNat r).length) '0' ++ renderNat r
+
+/-- `mant / 10^exp` for `mant ≥ 0`: integer part, and when `exp > 0` a `'.'` and exactly `exp` digits -/
+def renderDec (d : Dec) : List Char :=
+  renderNat (d.mant.toNat / 10 ^ d.exp) ++
+    (if d.exp = 0 then [] else '.' :: renderFrac d.exp (d.mant.toNat % 10 ^ d.exp))
+
+theorem isDigit_of_mem_renderFrac {c : Char} {k r : Nat} (h : c ∈ renderFrac k r) : c.isDigit = true := by
+  rcases List.mem_append.1 h with h | h
+  · rw [(List.mem_replicate.1 h).2]; rfl
+  · exact isDigit_of_mem_renderNat h
+
+theorem length_renderFrac {k r : Nat} (hk : 0 < k) (hr : r < 10 ^ k) : (renderFrac k r).length = k := by
+  have : (renderNat r).length ≤ k := (Nat.length_toDigits_le_iff (by decide) hk).2 hr
+  simp only [renderFrac, List.length_append, List.length_replicate]
+  omega
+
+theorem parseNat_renderFrac {k r : Nat} (hk : 0 < k) (hr : r < 10 ^ k) :
+    parseNat (renderFrac k r) = some r := by
+  unfold parseNat
+  have h1 : (renderFrac k r).isEmpty = false := by
+    have := length_renderFrac hk hr
+    cases h : renderFrac k r with
+    | nil => rw [h] at this; simp at this; omega
+    | cons => rfl
+  have h2 : (renderFrac k r).all Char.isDigit = true :=
+    List.all_eq_true.2 fun c hc => isDigit_of_mem_renderFrac hc
+  rw [h1, h2]
+  simp [renderFrac, renderNat, Nat.ofDigitChars_append]
+
+theorem not_mem_renderDec {c : Char} (hc : c.isDigit = false) (hd : c ≠ '.') (d : Dec) : c ∉ renderDec d := by
+  intro h
+  unfold renderDec at h
+  rcases List.mem_append.1 h with h | h
+  · exact not_mem_renderNat hc _ h
+  · split at h
+    · cases h
+    · rcases List.mem_cons.1 h with h | h
+      · exact hd h
+      · rw [isDigit_of_mem_renderFrac h] at hc; cases hc
+
+theorem renderDec_ne_nil (d : Dec) : renderDec d ≠ [] := by
+  unfold renderDec
+  intro h
+  exact renderNat_ne_nil _ (List.append_eq_nil_iff.1 h).1
+
+theorem head?_renderDec (d : Dec) : ∃ c, (renderDec d).head? = some c ∧ c.isDigit = true := by
+  unfold renderDec
+  cases h : renderNat (d.mant.toNat / 10 ^ d.exp) with
+  | nil => exact absurd h (renderNat_ne_nil _)
+  | cons c cs =>
+    refine ⟨c, rfl, isDigit_of_mem_renderNat (n := d.mant.toNat / 10 ^ d.exp) ?_⟩
+    rw [h]; exact List.mem_cons_self
+
+/-- the weight parser inverts the weight printer -/
+theorem parseDec_renderDec (d : Dec) (hd : 0 ≤ d.mant) : parseDec (renderDec d) = some d := by
+  obtain ⟨c, hc, hcd⟩ := head?_renderDec d
+  have hneg : ((renderDec d).head? == some '-') = false := by
+    rw [hc]; simp only [beq_eq_false_iff_ne, ne_eq, Option.some.injEq]
+    intro e; rw [e] at hcd; cases hcd
+  have hpos : ((renderDec d).head? == some '+') = false := by
+    rw [hc]; simp only [beq_eq_false_iff_ne, ne_eq, Option.some.injEq]
+    intro e; rw [e] at hcd; cases hcd
+  obtain ⟨m, e⟩ := d
+  simp only at hd
+  unfold parseDec
+  simp only [hneg, hpos, Bool.or_self, Bool.false_eq_true, if_false]
+  have hdotI : '.' ∉ renderNat (m.toNat / 10 ^ e) := not_mem_renderNat (by decide) _
+  by_cases he : e = 0
+  · subst he
+    have : renderDec { mant := m, exp := 0 } = renderNat m.toNat := by simp [renderDec]
+    rw [this, splitCh_of_not_mem (not_mem_renderNat (by decide) _)]
+    simp only [parseNat_renderNat, Option.map_some]
+    congr 2
+    omega
+  · have hk : 0 < e := Nat.pos_of_ne_zero he
+    have hr : m.toNat % 10 ^ e < 10 ^ e := Nat.mod_lt _ (Nat.pow_pos (by decide))
+    have : renderDec { mant := m, exp := e } =
+        renderNat (m.toNat / 10 ^ e) ++ '.' :: renderFrac e (m.toNat % 10 ^ e) := by
+      simp [renderDec, he]
+    have hdotF : '.' ∉ renderFrac e (m.toNat % 10 ^ e) := by
+      intro h; have := isDigit_of_mem_renderFrac h; cases this
+    rw [this, splitCh_append_sep hdotI, splitCh_of_not_mem hdotF]
+    have hI : (renderNat (m.toNat / 10 ^ e)).isEmpty = false := by
+      cases h : renderNat (m.toNat / 10 ^ e) with
+      | nil => exact absurd h (renderNat_ne_nil _)
+      | cons => rfl
+    have hF : (renderFrac e (m.toNat % 10 ^ e)).isEmpty = false := by
+      have := length_renderFrac hk hr
+      cases h : renderFrac e (m.toNat % 10 ^ e) with
+      | nil => rw [h] at this; simp at this; omega
+      | cons => rfl
+    simp only [hI, hF, Bool.false_eq_true, if_false, parseNat_renderNat, parseNat_renderFrac hk hr,
+      length_renderFrac hk hr]
+    have hdm := Nat.div_add_mod' m.toNat (10 ^ e)
+    congr 2
+    omega
+
+/-! ### text level: lines -/
+
+/-- a gap of `k + 1` spaces -/
+def spaces (k : Nat) : List Char := List.replicate (k + 1) ' '
+
+/-- how an edge line is laid out: tag `a` (`true`) or `e` (`false`); the number of EXTRA spaces in each of
+the three gaps; whether a weight equal to 1 is left out -/
+structure EdgeStyle where
+  tag : Bool
+  gap1 : Nat
+  gap2 : Nat
+  gap3 : Nat
+  omitOne : Bool
+deriving Repr
+
+/-- `e u v w` with single spaces -/
+instance : Inhabited EdgeStyle := ⟨{ tag := false, gap1 := 0, gap2 := 0, gap3 := 0, omitOne := false }⟩
+
+/-- an edge line for 1-based endpoints `u`, `v` -/
+def renderEdgeLine (st : EdgeStyle) (u v : Nat) (w : Dec) : List Char :=
+  (if st.tag then 'a' else 'e') :: (spaces st.gap1 ++ (renderNat u ++ (spaces st.gap2 ++ (renderNat v ++
+    (if st.omitOne && decide (w = Dec.one) then [] else spaces st.gap3 ++ renderDec w)))))
+
+/-- `p edge n m` -/
+def renderProblemLine (gap1 gap2 gap3 n m : Nat) : List Char :=
+  'p' :: (spaces gap1 ++ ("edge".toList ++ (spaces gap2 ++ (renderNat n ++ (spaces gap3 ++ renderNat m)))))
+
+/-- a comment line: `#` (`true`) or `c` (`false`) followed by arbitrary text -/
+def renderComment (hash : Bool) (text : List Char) : List Char :=
+  (if hash then '#' else 'c') :: text
+
+theorem classifyL_edgeLine (st : EdgeStyle) (u v : Nat) (w : Dec) (hw : 0 ≤ w.mant) :
+    classifyL (renderEdgeLine st u v w) = .edge u v w := by
+  have hu := not_mem_renderNat (c := ' ') (by decide) u
+  have hv := not_mem_renderNat (c := ' ') (by decide) v
+  have hww := not_mem_renderDec (c := ' ') (by decide) (by decide) w
+  have key : classifyL (renderEdgeLine st u v w) =
+      (match tokens (spaces st.gap1 ++ (renderNat u ++ (spaces st.gap2 ++ (renderNat v ++
+        (if st.omitOne && decide (w = Dec.one) then [] else spaces st.gap3 ++ renderDec w))))) with
+      | [u, v] => match parseInt u, parseInt v with
+        | some u, some v => DLine.edge u v Dec.one
+        | _, _ => .other
+      | u :: v :: w :: _ => match parseInt u, parseInt v, parseDec w with
+        | some u, some v, some w => .edge u v w
+        | _, _, _ => .other
+      | _ => .other) := by
+    unfold renderEdgeLine
+    cases st.tag <;> rfl
+  rw [key]
+  unfold spaces
+  rw [tokens_replicate, tokens_word_gap hu (renderNat_ne_nil u)]
+  by_cases ho : (st.omitOne && decide (w = Dec.one)) = true
+  · have hone : w = Dec.one := by
+      simp only [Bool.and_eq_true, decide_eq_true_eq] at ho; exact ho.2
+    rw [if_pos ho, List.append_nil, tokens_word hv (renderNat_ne_nil v)]
+    simp only [parseInt_renderNat, hone]
+  · rw [if_neg ho, tokens_word_gap hv (renderNat_ne_nil v), tokens_word hww (renderDec_ne_nil w)]
+    simp only [parseInt_renderNat, parseDec_renderDec w hw]
+
+theorem classifyL_problemLine (gap1 gap2 gap3 n m : Nat) :
+    classifyL (renderProblemLine gap1 gap2 gap3 n m) = .problem n := by
+  have hn := not_mem_renderNat (c := ' ') (by decide) n
+  have hm := not_mem_renderNat (c := ' ') (by decide) m
+  have key : classifyL (renderProblemLine gap1 gap2 gap3 n m) =
+      (match tokens (['p'] ++ (spaces gap1 ++ ("edge".toList ++ (spaces gap2 ++ (renderNat n ++
+        (spaces gap3 ++ renderNat m)))))) with
+      | _ :: _ :: n :: _ => match parseNat n with
+        | some n => DLine.problem n
+        | none => .other
+      | _ => .other) := rfl
+  rw [key]
+  unfold spaces
+  rw [tokens_word_gap (by decide) (by decide), tokens_word_gap (by decide) (by decide),
+    tokens_word_gap hn (renderNat_ne_nil n), tokens_word hm (renderNat_ne_nil m)]
+  simp only [parseNat_renderNat]
+
+theorem classifyL_comment (hash : Bool) (text : List Char) :
+    classifyL (renderComment hash text) = .comment := by
+  unfold renderComment
+  cases hash <;> rfl
+
+theorem classify_ofList (l : List Char) : classify (String.ofList l) = classifyL l := by
+  simp [classify]
+
+theorem classify_edgeLine (st : EdgeStyle) (u v : Nat) (w : Dec) (hw : 0 ≤ w.mant) :
+    classify (String.ofList (renderEdgeLine st u v w)) = .edge u v w := by
+  rw [classify_ofList, classifyL_edgeLine st u v w hw]
+
+theorem classify_problemLine (gap1 gap2 gap3 n m : Nat) :
+    classify (String.ofList (renderProblemLine gap1 gap2 gap3 n m)) = .problem n := by
+  rw [classify_ofList, classifyL_problemLine]
+
+theorem classify_comment (hash : Bool) (text : List Char) :
+    classify (String.ofList (renderComment hash text)) = .comment := by
+  rw [classify_ofList, classifyL_comment]
+
+/-! ### text level: whole files -/
+
+/-- everything about the way a graph is written down that the reader must not care about -/
+structure Layout where
+  /-- comment lines before the problem line: (`#`?, text) -/
+  pre : List (Bool × List Char)
+  /-- extra spaces in the three gaps of the problem line -/
+  pgap1 : Nat
+  pgap2 : Nat
+  pgap3 : Nat
+  /-- the style of the i-th edge line (missing entries: `e u v w` with single spaces) -/
+  styles : List EdgeStyle
+  /-- the comment lines before the i-th edge line (missing entries: none) -/
+  between : List (List (Bool × List Char))
+  /-- comment lines after the last edge line -/
+  post : List (Bool × List Char)
+  /-- does the last line end with `'\n'`? -/
+  finalNewline : Bool
+
+/-- no comment text contains a newline (it would not be ONE line then) -/
+def Layout.NoNewlineInComments (lay : Layout) : Prop :=
+  (∀ c ∈ lay.pre, '\n' ∉ c.2) ∧ (∀ cs ∈ lay.between, ∀ c ∈ cs, '\n' ∉ c.2) ∧ (∀ c ∈ lay.post, '\n' ∉ c.2)
+
+def renderComments (cs : List (Bool × List Char)) : List (List Char) :=
+  cs.map fun c => renderComment c.1 c.2
+
+/-- the lines of the file, without their newlines -/
+def renderLines (g : DGraph) (lay : Layout) : List (List Char) :=
+  renderComments lay.pre ++ [renderProblemLine lay.pgap1 lay.pgap2 lay.pgap3 g.n g.edges.length] ++
+  ((g.edges.zipIdx).flatMap fun (e, i) =>
+      renderComments (lay.between.getD i []) ++
+        [renderEdgeLine (lay.styles.getD i default) (e.1 + 1) (e.2.1 + 1) e.2.2]) ++
+  renderComments lay.post
+
+/-- what `fgets` delivers: every line keeps its `'\n'`; the last line has one iff `finalNewline` -/
+def withNewlines (finalNewline : Bool) : List (List Char) → List (List Char)
+  | [] => []
+  | [l] => [if finalNewline then l ++ ['\n'] else l]
+  | l :: l' :: ls => (l ++ ['\n']) :: withNewlines finalNewline (l' :: ls)
+
+/-- the text of the file as the reader's loop sees it -/
+def renderText (g : DGraph) (lay : Layout) : List String :=
+  (withNewlines lay.finalNewline (renderLines g lay)).map String.ofList
+
+theorem stripNewline_of_not_mem (l : List Char) (h : '\n' ∉ l) : stripNewline l = l :=
+  stripNewline_of_ne l fun e => h (List.mem_of_getLast? e)
+
+theorem map_stripNewline_withNewlines (b : Bool) (ls : List (List Char)) (h : ∀ l ∈ ls, '\n' ∉ l) :
+    (withNewlines b ls).map stripNewline = ls := by
+  induction ls with
+  | nil => rfl
+  | cons l ls ih =>
+    cases ls with
+    | nil =>
+      cases b
+      · simp [withNewlines, stripNewline_of_not_mem l (h l List.mem_cons_self)]
+      · simp [withNewlines, stripNewline_append_newline]
+    | cons l' ls =>
+      rw [withNewlines, List.map_cons, stripNewline_append_newline,
+        ih fun x hx => h x (List.mem_cons_of_mem _ hx)]
+
+theorem newline_not_mem_renderNat (n : Nat) : '\n' ∉ renderNat n := not_mem_renderNat (by decide) n
+
+theorem newline_not_mem_edgeLine (st : EdgeStyle) (u v : Nat) (w : Dec) :
+    '\n' ∉ renderEdgeLine st u v w := by
+  have h1 := newline_not_mem_renderNat u
+  have h2 := newline_not_mem_renderNat v
+  have h3 := not_mem_renderDec (c := '\n') (by decide) (by decide) w
+  unfold renderEdgeLine spaces
+  cases st.tag <;> split <;> simp [List.mem_replicate, h1, h2, h3]
+
+theorem newline_not_mem_problemLine (a b c n m : Nat) : '\n' ∉ renderProblemLine a b c n m := by
+  have h1 := newline_not_mem_renderNat n
+  have h2 := newline_not_mem_renderNat m
+  unfold renderProblemLine spaces
+  simp [List.mem_replicate, h1, h2]
+
+theorem newline_not_mem_comments (cs : List (Bool × List Char)) (h : ∀ c ∈ cs, '\n' ∉ c.2) :
+    ∀ l ∈ renderComments cs, '\n' ∉ l := by
+  intro l hl
+  obtain ⟨c, hc, rfl⟩ := List.mem_map.1 hl
+  have := h c hc
+  unfold renderComment
+  cases c.1 <;> simp [this]
+
+theorem newline_not_mem_renderLines (g : DGraph) (lay : Layout) (hl : lay.NoNewlineInComments) :
+    ∀ l ∈ renderLines g lay, '\n' ∉ l := by
+  intro l h
+  unfold renderLines at h
+  simp only [List.mem_append, List.mem_singleton, List.mem_flatMap] at h
+  rcases h with ((h | h) | ⟨⟨e, i⟩, _, h | h⟩) | h
+  · exact newline_not_mem_comments _ hl.1 l h
+  · rw [h]; exact newline_not_mem_problemLine _ _ _ _ _
+  · refine newline_not_mem_comments _ ?_ l h
+    rw [List.getD_eq_getElem?_getD]
+    cases hi : lay.between[i]? with
+    | none => intro c hc; cases hc
+    | some cs => exact hl.2.1 cs (List.mem_of_getElem? hi)
+  · rw [h]; exact newline_not_mem_edgeLine _ _ _ _
+  · exact newline_not_mem_comments _ hl.2.2 l h
+
+theorem map_classifyL_comments (cs : List (Bool × List Char)) :
+    (renderComments cs).map classifyL = List.replicate cs.length DLine.comment := by
+  induction cs with
+  | nil => rfl
+  | cons c cs ih =>
+    unfold renderComments at ih ⊢
+    rw [List.map_cons, List.map_cons, ih, classifyL_comment, List.length_cons, List.replicate_succ]
+
+theorem getD_map_length (between : List (List (Bool × List Char))) (i : Nat) :
+    (between.map List.length).getD i 0 = (between.getD i []).length := by
+  rw [List.getD_eq_getElem?_getD, List.getD_eq_getElem?_getD, List.getElem?_map]
+  cases between[i]? <;> rfl
+
+theorem flatMap_congr_mem {α β : Type} {l : List α} {f g : α → List β} (h : ∀ a ∈ l, f a = g a) :
+    l.flatMap f = l.flatMap g := by
+  induction l with
+  | nil => rfl
+  | cons a l ih =>
+    rw [List.flatMap_cons, List.flatMap_cons, h a List.mem_cons_self,
+      ih fun b hb => h b (List.mem_cons_of_mem _ hb)]
+
+/-- the classified lines of a rendered text -/
+theorem map_classifyL_renderLines (g : DGraph) (lay : Layout) (hw : ∀ e ∈ g.edges, 0 ≤ e.2.2.mant) :
+    (renderLines g lay).map classifyL =
+      List.replicate lay.pre.length .comment ++ [.problem g.n] ++
+      ((g.edges.zipIdx).flatMap fun (e, i) =>
+        List.replicate ((lay.between.map List.length).getD i 0) DLine.comment ++
+          [DLine.edge (e.1 + 1 : Nat) (e.2.1 + 1 : Nat) e.2.2]) ++
+      List.replicate lay.post.length .comment := by
+  unfold renderLines
+  simp only [List.map_append, List.map_cons, List.map_nil, map_classifyL_comments, classifyL_problemLine,
+    List.map_flatMap]
+  congr 2
+  apply flatMap_congr_mem
+  rintro ⟨e, i⟩ he
+  have hm : e ∈ g.edges := (List.mem_zipIdx he).2.2 ▸ List.getElem_mem _
+  simp only [classifyL_edgeLine _ _ _ _ (hw e hm), getD_map_length]
+
+theorem readDimacs_renderText_eq (g : DGraph) (lay : Layout) (hl : lay.NoNewlineInComments) :
+    readDimacs (renderText g lay) = interp ((renderLines g lay).map classifyL) := by
+  unfold readDimacs renderText
+  congr 1
+  rw [List.map_map]
+  have : ((fun l : String => classify (String.ofList (stripNewline l.toList))) ∘ String.ofList) =
+      classifyL ∘ stripNewline := by
+    funext l
+    simp [classify]
+  rw [this, ← List.map_map, map_stripNewline_withNewlines _ _ (newline_not_mem_renderLines g lay hl)]
+
+/-- text-level round trip -/
+theorem readDimacs_renderText (g : DGraph) (lay : Layout)
+    (hg : ∀ e ∈ g.edges, e.1 < g.n ∧ e.2.1 < g.n) (hw : ∀ e ∈ g.edges, 0 ≤ e.2.2.mant)
+    (hl : lay.NoNewlineInComments) :
+    readDimacs (renderText g lay) = some g := by
+  rw [readDimacs_renderText_eq g lay hl, map_classifyL_renderLines g lay hw]
+  unfold interp
+  rw [List.foldlM_append, List.foldlM_append, List.foldlM_append, foldlM_comments]
+  simp only [Option.bind_eq_bind, Option.bind_some, List.foldlM_cons, List.foldlM_nil, interpLine,
+    Option.pure_def]
+  rw [foldlM_edges (lay.between.map List.length) g.edges 0 _ (by simpa using hg)]
+  simp [foldlM_comments]
+
 end Parmcb.DimacsL
